@@ -430,6 +430,107 @@ func c09Exec(cs c09Case) (*fw.Violation, *harness.Server, int) {
 	return nil, h, nOrder
 }
 
+// c09TimeoutCase: the server itself gives a request up when its time is over (ReadTimeout) while frames for it
+// are still on their way; the streams around it must not notice.
+type c09TimeoutCase struct {
+	Dispatched bool     `json:"dispatched"`      // the request was complete (handler running) when the timer fired
+	InFlight   []string `json:"in_flight"`       // frames that arrive for the stream after the timer fired
+	ReturnAt   int      `json:"handler_returns"` // position in InFlight at which the timed-out handler returns (len: afterwards)
+}
+
+func c09Timeout(cs c09TimeoutCase) (*fw.Violation, *harness.Server) {
+	h := harness.NewServer(harness.ServerOpts{MaxConcurrentStreams: 3, ReadTimeout: 1000000000})
+	x := &c09Run{h: h, wants: map[uint32]harness.WantReq{}, nextID: 1}
+	shape := fmt.Sprintf("request-timeout dispatched=%v in-flight=%s", cs.Dispatched, strings.Join(cs.InFlight, ","))
+	mk := func(rule, sh, detail string) *fw.Violation {
+		return &fw.Violation{Rule: rule, Shape: sh, Detail: detail + "\n    events: " + strings.Join(h.EventLog, " ; "), Replay: map[string]any{"family": "c09timeout", "case": cs}}
+	}
+	resp := harness.Resp{Status: 200, Body: []byte("ok"), Headers: [][2]string{{"X-R", "r"}}}
+	finish := func(id uint32) {
+		for _, c := range h.Calls {
+			if c.Stream == id && !c.Returned {
+				h.Finish(c.Idx, resp)
+			}
+		}
+	}
+	// V1 completes before anything times out
+	var v1 uint32
+	for _, t := range x.victim("v1", nil, true) {
+		h.SendFrames(t.f()...)
+	}
+	for id := range x.wants {
+		v1 = id
+	}
+	finish(v1)
+	// X: its block inserts the entries V2 will refer to
+	xid := x.newID()
+	fields := append(harness.ReqFields("POST", "https", "h", "/x", [2]string{"x-sid", fmt.Sprint(xid)}), c09Ins("x")...)
+	h.SendFrames(peer.Headers(xid, h.PeerEnc.Block(fields, nil), peer.HeadersOpt{EndStream: cs.Dispatched, EndHeaders: true, Pad: -1}))
+	if !cs.Dispatched {
+		h.SendFrames(peer.Data(xid, []byte("part"), false, -1))
+	}
+	if !h.FireTimer() {
+		return nil, h // no request timer armed: nothing to explore
+	}
+	for i := 0; i <= len(cs.InFlight); i++ {
+		if i == cs.ReturnAt {
+			finish(xid)
+		}
+		if i == len(cs.InFlight) || h.Returned {
+			break
+		}
+		switch cs.InFlight[i] {
+		case "WINDOW_UPDATE":
+			h.SendFrames(peer.WindowUpdate(xid, 10))
+		case "DATA":
+			h.SendFrames(peer.Data(xid, []byte("late"), false, -1))
+		case "DATA+ES":
+			h.SendFrames(peer.Data(xid, []byte("late"), true, -1))
+		case "PRIORITY":
+			h.SendFrames(peer.Priority(xid, 0, false, 7))
+		case "RST_STREAM":
+			h.SendFrames(peer.RstStream(xid, 8))
+		case "TRAILERS":
+			h.SendFrames(peer.Headers(xid, h.PeerEnc.Block([]ref.Field{{Name: "x-ins-t", Value: "t"}}, nil), peer.HeadersOpt{EndStream: true, EndHeaders: true, Pad: -1}))
+		}
+	}
+	// V2 leans on what X's block inserted
+	for _, t := range x.victim("v2", c09Ins("x"), false) {
+		h.SendFrames(t.f()...)
+	}
+	if len(h.GoAways) > 0 || h.C.Closed() || h.Returned {
+		return mk("connection-torn-down", shape+" -> "+reactionClass(h.Reaction(0)), fmt.Sprintf("the server gave stream %d up on its own timeout; frames in flight for it ended the connection: %s", xid, h.Reaction(0))), h
+	}
+	for id, w := range x.wants {
+		var found []*harness.Call
+		for _, c := range h.Calls {
+			if c.Stream == id {
+				found = append(found, c)
+			}
+		}
+		if len(found) != 1 {
+			return mk("victim-not-dispatched", shape, fmt.Sprintf("well-formed stream %d was dispatched %d times next to a request that timed out", id, len(found))), h
+		}
+		if d, cls := harness.CheckRequest(w, found[0].Req); d != "" {
+			return mk("victim-request-not-intact", shape+" "+cls, fmt.Sprintf("stream %d: %s", id, d)), h
+		}
+		finish(id)
+		if d, cls := harness.CheckResponse(h.Streams[id], resp); d != "" {
+			return mk("victim-response-not-intact", shape+" "+cls, fmt.Sprintf("stream %d: %s", id, d)), h
+		}
+	}
+	if len(h.GoAways) > 0 || h.C.Closed() || h.Returned {
+		return mk("connection-torn-down", shape+" -> "+reactionClass(h.Reaction(0)), "the connection ended after a request timed out: "+h.Reaction(0)), h
+	}
+	if p := h.Panicked(); len(p) > 0 {
+		return mk("server-panic", shape, strings.Join(p, "; ")), h
+	}
+	if ev := h.PoolEvents(); len(ev) > 0 {
+		return mk("pool-misuse", shape, strings.Join(ev, "; ")), h
+	}
+	return nil, h
+}
+
 func sortU32(a []uint32) {
 	for i := 1; i < len(a); i++ {
 		for j := i; j > 0 && a[j] < a[j-1]; j-- {
@@ -506,14 +607,86 @@ func runC09(c *fw.Ctx) {
 		}
 	}
 	c.Bound["offences"] = len(c09Offences)
+	// the server's own request timeout with frames in flight
+	kinds := []string{"WINDOW_UPDATE", "DATA", "DATA+ES", "PRIORITY", "RST_STREAM", "TRAILERS"}
+	var seqs [][]string
+	for _, a := range kinds {
+		seqs = append(seqs, []string{a})
+		for _, b := range kinds {
+			seqs = append(seqs, []string{a, b})
+		}
+	}
+	// what a conforming peer can still have in flight: nothing but WINDOW_UPDATE / PRIORITY / RST_STREAM once it has
+	// ended the stream, nothing but PRIORITY once it has reset it
+	legal := func(disp bool, sq []string) bool {
+		ended, reset := disp, false
+		for _, k := range sq {
+			if reset && k != "PRIORITY" {
+				return false
+			}
+			if ended && (k == "DATA" || k == "DATA+ES" || k == "TRAILERS") {
+				return false
+			}
+			switch k {
+			case "DATA+ES", "TRAILERS":
+				ended = true
+			case "RST_STREAM":
+				reset = true
+			}
+		}
+		return true
+	}
+	for _, disp := range []bool{true, false} {
+		for _, sq := range seqs {
+			if !legal(disp, sq) {
+				continue
+			}
+			for ret := 0; ret <= len(sq); ret++ {
+				if !disp && ret != len(sq) {
+					continue
+				}
+				if item++; !c.Mine(item) {
+					continue
+				}
+				cs := c09TimeoutCase{Dispatched: disp, InFlight: sq, ReturnAt: ret}
+				v, h := c09Timeout(cs)
+				js, _ := json.Marshal(cs)
+				c.Eval(nt(true, js))
+				c.AddTransitions(int64(h.Events))
+				c.AddTraces(1)
+				c.State(fw.Hash(h.Digest()))
+				if v != nil {
+					c.Violate(*v)
+					c.Outcome(v.Rule)
+				} else {
+					c.Outcome("victims-intact:timeout")
+				}
+				h.Close()
+			}
+		}
+	}
+	c.Family("request-timeout")
 }
 
 func replayC09(raw json.RawMessage) (string, bool) {
 	var r struct {
-		Case c09Case `json:"case"`
+		Family string  `json:"family"`
+		Case   c09Case `json:"case"`
 	}
 	if err := json.Unmarshal(raw, &r); err != nil {
 		return err.Error(), false
+	}
+	if r.Family == "c09timeout" {
+		var rt struct {
+			Case c09TimeoutCase `json:"case"`
+		}
+		json.Unmarshal(raw, &rt)
+		v, h := c09Timeout(rt.Case)
+		defer h.Close()
+		if v != nil {
+			return v.Rule + " [" + v.Shape + "]: " + v.Detail, true
+		}
+		return "victims intact: " + strings.Join(h.EventLog, " ; "), false
 	}
 	v, h, _ := c09Exec(r.Case)
 	defer h.Close()
